@@ -261,7 +261,9 @@ def driveC17 (args : List String) : String :=
     let copts := match rest with | [c] => ((c.drop 6).toString.toNat?.getD 0) | _ => 0
     let stream := kind == "stream"
     let baseKind := (base.drop 5).toString
-    let b : InterceptClient.Chan := .base (baseKind == "grpc") 0
+    -- "grpcf" / "recf": the base is reached through a wrapper that is not the library's own (no interceptors of its own)
+    let b0 : InterceptClient.Chan := .base (baseKind == "grpc" || baseKind == "grpcf") 0
+    let b : InterceptClient.Chan := if baseKind == "grpcf" || baseKind == "recf" then .wrapped b0 none none else b0
     let specs := ((layers.drop 7).toString.splitOn ",")
     let (ch, _) := specs.foldl (fun (acc : InterceptClient.Chan × Nat) sp =>
       let (ch, i) := acc
@@ -275,7 +277,7 @@ def driveC17 (args : List String) : String :=
       | .int st l cc c =>
         let ccs := match cc with | some _ => "root" | none => "nil"
         some s!"int{if st then "S" else "U"}({l},cc={ccs},{mname},opts={c.opts})"
-      | .base st _ c => if baseKind == "rec" then some s!"base{if st then "S" else "U"}({mname},opts={c.opts})" else none
+      | .base st _ c => if baseKind == "rec" || baseKind == "recf" then some s!"base{if st then "S" else "U"}({mname},opts={c.opts})" else none
     let body := " ".intercalate (evs.filterMap showEv)
     body ++ " =>" ++ (if res == 0 then "ok" else "short")
   | _ => "bad-op"
@@ -471,6 +473,7 @@ def actOf (actor op : String) (arg : String) : Option Act :=
   match actor, op with
   | "cs", "send" => arg.toNat?.map .cSendBegin
   | "cs", "closesend" => some .cCloseSend
+  | "cs", "sendbad" => some .cSendRefused
   | "cr", "recv" => some .cRecvBegin
   | "cr", "header" => some .cHeaderBegin
   | "cr", "trailer" => some .cTrailer
